@@ -133,6 +133,12 @@ fn real_main() {
                 None => println!("no violation on the current tree"),
             }
         }
+        Some("smoke") => {
+            let n: u64 = args.get(2).and_then(|s| s.parse().ok()).unwrap_or(2);
+            let steps: usize = args.get(3).and_then(|s| s.parse().ok()).unwrap_or(10);
+            let a = checks::smoke(n, steps);
+            println!("smoke finished: {a} actions executed");
+        }
         Some("mkwitness") => {
             checks::mkwitness(&args[2], 7, &verif);
         }
